@@ -65,6 +65,28 @@ def cases(tier, seed):
             out.append({"part": "B", "frame": fr, "what": "project_corner", "corner": c1})
         for i in range(4):
             out.append({"part": "B", "frame": fr, "what": "add_side_edge", "corner": i})
+        # part C: histories of addressing calls (declaration model: union of what each call addresses)
+        pair_frames = frames if tier == "thorough" else frames[:1]
+        if fr in pair_frames:
+            calls1 = []
+            for side in SIDES:
+                calls1.append(["project_side", side, True, False])
+                calls1.append(["project_side", side, False, True])
+            for c1, c2 in bm.EDGES:
+                calls1.append(["project_edge", c1, c2])
+            for c in (0, 3, 5, 6):
+                calls1.append(["project_corner", c])
+            for x in calls1:
+                for y in calls1:
+                    if x is y and x[0] != "project_edge":
+                        continue
+                    if tier == "quick" and x[0] == "project_edge" and y[0] == "project_edge" and not (set(x[1:3]) & set(y[1:3])):
+                        continue
+                    out.append({"part": "C", "frame": fr, "calls": [x, y]})
+            if tier == "thorough":
+                sides_e = [["project_side", s, True, True] for s in SIDES]
+                for x, y, z in itertools.permutations(sides_e, 3):
+                    out.append({"part": "C", "frame": fr, "calls": [x, y, z]})
         for assign in ([["left", "a"], ["top", "b"], ["front", "c"]], [["right", "a"], ["bottom", "b"], ["back", "c"]], [["left", "a"], ["right", "a"], ["top", "b"]]):
             out.append({"part": "B", "frame": fr, "what": "patches_at_corner", "assign": assign})
     return out
@@ -331,7 +353,76 @@ def run_part_b(case):
     return {"violations": violations, "outcome": "B:" + outcome, "execs": 1, "states": 1, "transitions": 1, "nontrivial": True}
 
 
+def run_part_c(case):
+    """a history of addressing calls with distinct labels; expected = union of what each call addresses"""
+    loft, pts = make_loft(case["frame"])
+    coords = {"frame": case["frame"], "calls": case["calls"]}
+    violations = []
+    faces = {}
+    edges = {}
+    corners = {}
+    expect_error = False
+    for k, call in enumerate(case["calls"]):
+        lab = f"g{k}"
+        if call[0] == "project_side":
+            _, side, e, p = call
+            faces[side] = lab
+            cs = set(bm.FACES[side])
+            if e:
+                for ed in bm.EDGES:
+                    if set(ed) <= cs:
+                        edges.setdefault(frozenset(ed), []).append(lab)
+            if p:
+                for c in cs:
+                    corners.setdefault(c, []).append(lab)
+        elif call[0] == "project_edge":
+            edges.setdefault(frozenset(call[1:3]), []).append(lab)
+        else:
+            corners.setdefault(call[1], []).append(lab)
+    if any(len(set(v)) > 2 for v in edges.values()):
+        expect_error = True
+    try:
+        for k, call in enumerate(case["calls"]):
+            lab = f"g{k}"
+            if call[0] == "project_side":
+                loft.project_side(call[1], lab, edges=call[2], points=call[3])
+            elif call[0] == "project_edge":
+                loft.project_edge(call[1], call[2], lab)
+            else:
+                loft.project_corner(call[1], lab)
+        d = write_parse(loft)
+    except Exception as err:
+        if not expect_error:
+            violations.append({"clause": "addressing-sequence-raised", "coords": coords, "detail": f"{type(err).__name__}: {err}"})
+        return {"violations": violations, "outcome": "C:raised", "execs": 1, "states": 1, "transitions": len(case["calls"]), "nontrivial": True}
+    if expect_error:
+        violations.append({"clause": "edge-projected-to-three-surfaces-accepted", "coords": coords, "detail": str(d["edges"])})
+        return {"violations": violations, "outcome": "C:accepted3", "execs": 1, "states": 1, "transitions": len(case["calls"]), "nontrivial": True}
+    c_of = corner_of_vertex(d, pts)
+    got_faces = {tuple(sorted(c_of[v] for v in f["v"])): f["label"] for f in d["faces"]}
+    want_faces = {tuple(sorted(bm.FACES[s])): lab for s, lab in faces.items()}
+    if got_faces != want_faces or len(d["faces"]) != len(want_faces):
+        violations.append({"clause": "sequence-faces", "coords": coords, "detail": f"written {got_faces}, declared {want_faces}"})
+    got_edges = {}
+    for e in d["edges"]:
+        key = tuple(sorted(c_of[v] for v in e["v"]))
+        if key in got_edges or e["kind"] != "project":
+            violations.append({"clause": "sequence-edges", "coords": coords, "detail": f"unexpected entry {e}"})
+        got_edges[key] = sorted(e.get("labels", []))
+    want_edges = {tuple(sorted(k)): sorted(set(v)) for k, v in edges.items()}
+    if got_edges != want_edges:
+        diff = {k: (got_edges.get(k), want_edges.get(k)) for k in set(got_edges) | set(want_edges) if got_edges.get(k) != want_edges.get(k)}
+        violations.append({"clause": "sequence-edges", "coords": coords, "detail": f"edge (corner pair): (written labels, declared labels) = {diff}"})
+    got_pts = {c_of[i]: sorted(v["project"]) for i, v in enumerate(d["vertices"]) if v["project"]}
+    want_pts = {c: sorted(v) for c, v in corners.items()}
+    if got_pts != want_pts:
+        violations.append({"clause": "sequence-corners", "coords": coords, "detail": f"written {got_pts}, declared {want_pts}"})
+    return {"violations": violations, "outcome": "C:" + "+".join(c[0] for c in case["calls"]), "execs": 1, "states": 1, "transitions": len(case["calls"]), "nontrivial": True}
+
+
 def run_case(case):
     if case["part"] == "A":
         return run_part_a(case)
+    if case["part"] == "C":
+        return run_part_c(case)
     return run_part_b(case)
